@@ -5,6 +5,8 @@ EXTENDS TrieMachine
 AllKinds == {"Put", "Delete", "ClearPrefix", "ClearPrefixLimit", "SetVersion", "Snapshot",
              "Get", "NextKey", "KeysWithPrefix"}
 RootKinds == {"Put", "Delete", "SetVersion"}
+(* the root sentence over copy-on-write histories: a trie written after it was snapshotted copies its nodes (seed C01d) *)
+RootSnapKinds == {"Put", "Delete", "SetVersion", "Snapshot"}
 NoSnapshot == AllKinds \ {"Snapshot"}
 
 (* alphabet "short": shared nibble prefixes, a key that is a prefix of     *)
